@@ -13,6 +13,8 @@ use std::collections::BTreeSet;
 
 struct Out {
     fails: Vec<String>,
+    /// `eks` rows: epoch secrets of real PSK commits, recomputed by the model
+    rows: Vec<(String, String)>,
     cases: u64,
     verdicts: u64,
     cover: BTreeSet<String>,
@@ -47,7 +49,7 @@ fn auth<C: MlsConfig>(g: &Group<C>) -> Vec<u8> {
 }
 
 fn scenario<C: MlsConfig>(rng: &mut Rng, mk: Mk<C>, out: &mut Out) {
-    let mut w: World<C> = new_world(Default::default(), "/tmp/vharness-scratch-c18");
+    let mut w: World<C> = new_world(Default::default(), &crate::util::scratch("c18"));
     let n = rng.range(3, 5) as usize;
     // half of the cases with encrypted handshake messages (proposals and commits as PrivateMessage)
     let enc = rng.chance(1, 2);
@@ -59,6 +61,8 @@ fn scenario<C: MlsConfig>(rng: &mut Rng, mk: Mk<C>, out: &mut Out) {
     }
     let g = w.members[0].client.create_group(Default::default(), Default::default(), None).unwrap();
     w.members[0].group = Some(g);
+    let mut vals = crate::eks::PskValues::default();
+    vals.note_epoch(w.group(0));
     // members 1..n-1 join now; member n-1 joins later (after some epochs), member n is the joiner of the PSK commit
     let early: Vec<usize> = (1..n - 1).collect();
     let add = |w: &mut World<C>, who: &[usize]| -> bool {
@@ -95,6 +99,7 @@ fn scenario<C: MlsConfig>(rng: &mut Rng, mk: Mk<C>, out: &mut Out) {
         out.fails.push("setup".into());
         return;
     }
+    vals.note_epoch(w.group(0));
     let advance = |w: &mut World<C>| {
         let (_, o) = w.with_group(0, |g| g.commit(vec![]));
         if let Some(o) = o {
@@ -111,6 +116,7 @@ fn scenario<C: MlsConfig>(rng: &mut Rng, mk: Mk<C>, out: &mut Out) {
     let mut last_write: Vec<Option<u64>> = vec![None; n + 1];
     for _ in 0..rng.range(1, 4) {
         advance(&mut w);
+        vals.note_epoch(w.group(0));
         // some members persist (retention trimming happens at write)
         for i in 0..n {
             if w.members[i].group.is_some() && rng.chance(1, 2) {
@@ -124,8 +130,10 @@ fn scenario<C: MlsConfig>(rng: &mut Rng, mk: Mk<C>, out: &mut Out) {
         out.fails.push("setup late joiner".into());
         return;
     }
+    vals.note_epoch(w.group(0));
     for _ in 0..rng.range(0, 3) {
         advance(&mut w);
+        vals.note_epoch(w.group(0));
         for i in 0..n {
             if w.members[i].group.is_some() && rng.chance(1, 3) {
                 w.with_group(i, |g| g.write_to_storage());
@@ -150,6 +158,7 @@ fn scenario<C: MlsConfig>(rng: &mut Rng, mk: Mk<C>, out: &mut Out) {
         if rng.chance(2, 3) || epoch == 0 {
             let id = rng.bytes(6);
             let val = rng.bytes(32);
+            vals.external.insert(id.clone(), val.clone());
             for i in 0..n + 1 {
                 let h = if i == 0 { 0 } else { *rng.pick(&[0u8, 0, 0, 1, 2]) };
                 holds[i].push(h);
@@ -249,6 +258,8 @@ fn scenario<C: MlsConfig>(rng: &mut Rng, mk: Mk<C>, out: &mut Out) {
     let bv = by_value.clone();
     let kp2 = kp.clone();
     let before0 = comps(w.group(0));
+    let eks_before = crate::eks::before(w.group(0));
+    let eks_opener = w.group(1).clone();
     let (r, o) = w.with_group(0, |g| {
         let mut b = g.commit_builder();
         for p in &bv {
@@ -297,6 +308,16 @@ fn scenario<C: MlsConfig>(rng: &mut Rng, mk: Mk<C>, out: &mut Out) {
         out.cover.insert(format!("res-by-ref:committed={}:dropped-unused={}", (res_by_ref.len() - dropped.len()).min(2), dropped.len().min(2)));
     }
     w.with_group(0, |g| g.apply_pending_commit());
+    // the epoch the committer entered, recomputed by the model from the commit's PSK list (ids and nonces as sent, commit order)
+    match crate::eks::row(&eks_before, &eks_opener, &o.commit_message, w.group(0), &vals) {
+        crate::eks::Row::Row(q, a) => {
+            out.cover.insert(format!("eks:psks={}:enc={}", q.split(' ').nth(7).unwrap_or("?"), enc as u8));
+            out.rows.push((q, a));
+        }
+        crate::eks::Row::Skip(why) => {
+            out.cover.insert(format!("eks-skip:{}", why.split(' ').take(4).collect::<Vec<_>>().join("-")));
+        }
+    }
     let auth0 = auth(w.group(0));
     for i in 1..n {
         if w.members[i].group.is_none() {
@@ -442,7 +463,7 @@ fn psk_proposal_bytes(ext_id: Option<&[u8]>, res: Option<(&[u8], u64)>, nonce: &
 ///    holding value 1 follows commit 1 and cannot process commit 2 (and stays unchanged), one holding value 2 the other way round.
 fn direct<C: MlsConfig>(rng: &mut Rng, mk: Mk<C>, out: &mut Out) {
     use mls_rs::mls_rs_codec::MlsDecode;
-    let mut w: World<C> = new_world(Default::default(), "/tmp/vharness-scratch-c18");
+    let mut w: World<C> = new_world(Default::default(), &crate::util::scratch("c18"));
     let enc = rng.chance(1, 2);
     for i in 0..3 {
         new_member(&mut w, mk, &format!("d{i}"), 5, enc);
@@ -634,7 +655,7 @@ fn direct<C: MlsConfig>(rng: &mut Rng, mk: Mk<C>, out: &mut Out) {
 /// the receiver must accept — whatever epochs of group 1 itself are still pending (unwritten) on either side.
 fn cross_group<C: MlsConfig>(rng: &mut Rng, mk: Mk<C>, out: &mut Out) {
     use mls_rs::mls_rs_codec::MlsDecode;
-    let mut w: World<C> = new_world(Default::default(), "/tmp/vharness-scratch-c18");
+    let mut w: World<C> = new_world(Default::default(), &crate::util::scratch("c18"));
     for i in 0..3 {
         new_client(&mut w, mk, &format!("x{i}"), false, 5);
     }
@@ -810,7 +831,7 @@ pub fn run(o: &Opts) -> i32 {
     let mut rng = Rng::new(o.seed());
     let mut qa = QA::create(&dir, "c18");
     let n = o.u64("scenarios", if o.thorough() { 3000 } else { 200 });
-    let mut out = Out { fails: vec![], cases: 0, verdicts: 0, cover: Default::default(), samples: vec![] };
+    let mut out = Out { fails: vec![], rows: vec![], cases: 0, verdicts: 0, cover: Default::default(), samples: vec![] };
     let mk = |s: &Setup, hd: &Handles, id, sk| mk_client(s, hd, id, sk);
     out.fails.extend(value_rows(&mut rng, &mut qa, if o.thorough() { 3000 } else { 300 }));
     for k in 0..n {
@@ -823,14 +844,17 @@ pub fn run(o: &Opts) -> i32 {
             direct(&mut r, &mk, &mut out);
         }
     }
+    for (q, a) in &out.rows {
+        qa.put(q, a);
+    }
     let rows = qa.finish();
     println!("rows {rows}");
     println!("cases {}", out.cases);
     println!("deliveries {}", out.verdicts);
     println!("cover {}", out.cover.iter().cloned().collect::<Vec<_>>().join(";"));
     println!("oracle_failures {}", out.fails.len());
-    std::fs::write(format!("{dir}/c18.failures"), out.fails.iter().take(300).cloned().collect::<Vec<_>>().join("\n")).unwrap();
+    std::fs::write(format!("{dir}/c18.failures"), out.fails.iter().cloned().collect::<Vec<_>>().join("\n")).unwrap();
     std::fs::write(format!("{dir}/c18.samples"), out.samples.join("\n")).unwrap();
-    let _ = std::fs::remove_dir_all("/tmp/vharness-scratch-c18");
+    let _ = std::fs::remove_dir_all(&crate::util::scratch("c18"));
     0
 }
